@@ -13,8 +13,10 @@ the `InputJsonExtensions` getters it uses, the origin / destination guards of th
 state / traversal models, every output plugin incl. `construct_route_output`) is the parameter `respond`, and the
 r-tree matchers and the haversine load balancer are recorded tables (`Plugin.table`): both are total by type, so
 a panic inside them cannot be expressed in `runO`, and `never_panics_partial` says nothing about them.
-`run_returns_iff_single_query_returns` (over `runRO`, the single-query function with outcomes) states exactly
-what the pipeline adds: for parallelism ≥ 1 the call returns iff the single-query function returns on every query
+`run_returns_iff_single_query_returns` (over `runRO`: the single-query function with outcomes,
+`ResponseSink::None`, the per-run configuration already parsed, table plugins still total — `TableEntry` has
+only `ok | err`, a panic inside an r-tree / haversine plugin is inexpressible there too) states what the pipeline
+adds IN THAT MODEL: the call returns iff parallelism is 0 or the single-query function returns on every query
 that reaches the search.  That the real single-query function and the real matchers return on the input classes
 the property names is evidenced by the forked differential run (per-class counters `input_class_*` in the
 evidence; corpus `corpus_input_classes`) and by theorems of the properties that own those pieces:
@@ -36,7 +38,7 @@ TOTAL `respond`, the per-run configuration already parsed and `ResponseSink::Non
 * `never_panics_partial` — every parallelism (0 included), both policies: `runO` is `Ok` or the whole-batch `Err`
   of parallelism 0, never `panic` / `diverges` (the four modelled sites);
 * `returns_responses`, `whole_batch_error_iff` — for parallelism ≥ 1 it is `Ok`; the other whole-call `Err` exits
-  of the real `run` are in the model with entry points: `call_never_panics`, `call_error_cases`;
+  of the real `run` are in the model with entry points: `call_never_panics_partial`, `call_error_cases`;
 * `empty_batch` — `[]` returns `[]`;
 * `every_query_accounted_for` — parallelism ≥ 1: under the persist policy each query contributes its expanded
   queries' responses or one error response; under the discard policy exactly its input-stage error response.
@@ -60,14 +62,21 @@ Where the code still deviates (finding with counterexample; key as in the harnes
 * `pipeline/sibling-responses-lost` — `C06.sibling_responses_lost_counterexample`, restated here: "the
   remaining queries are served" fails for the siblings of a failing expanded query.
 
-Entry points and builders: `call_never_panics` (every JSON value, every entry, every per-run configuration and
-sink), `call_error_cases`, `batch_of_wrong_json_type`, `inject_builder_never_panics` /
+Entry points and builders: `call_never_panics_partial` (`_partial` as `never_panics_partial`: TOTAL `respond`,
+total table plugins; every JSON value, each of the three entries `run` on a value / on a vector / `run_queries`
+on texts, every per-run configuration and every sink OF THE MODEL — none or a JSON file), `call_error_cases`
+(necessary conditions of each whole-call `Err`; sufficiency: `C06.invalid_run_config_fails_call`,
+`C06.sink_build_errors`, `C06.failing_sink_fails_call`, `whole_batch_error_iff`), `batch_of_wrong_json_type`, `inject_builder_never_panics` /
 `inject_builder_toml_is_error` (fix bdada7d: the `toml` format was `todo!()`), `inject_builder_builds_the_plugin`.
 
 Modelled rather than verified / not modelled: the single-query function and the opaque plugins (above); abort
 (allocation failure — reachable from one small query: a grid section with 12 axes of 10 options asks for 10^12
 queries; stack depth); the time a search takes; the two "could not build progress bar" exits, a poisoned sink
-mutex, the `Combined` output policy; the internals of serde_json / rstar / rayon / kdam; real thread interleavings.
+mutex, the `Combined` output policy and the CSV output format (C19) — a per-run or configured policy of either
+kind is accepted by the code and is answered `runConfig` by the model (`decodePolicy` = `none`), so for such a
+value `call_never_panics_partial` and the first disjunct of `call_error_cases` describe the model, not the code
+(`C06.isCombined`, `C06.isCsvFile`; the harness offers neither); one `writeOk` flag stands for every write of a
+call; the internals of serde_json / rstar / rayon / kdam; real thread interleavings.
 -/
 import Compass.Props.C06
 import Compass.Proofs.BatchEntry
@@ -142,7 +151,7 @@ theorem load_balancing_never_panics {α : Type} (W : WOps α) (p : Nat) (qs : Li
 every expanded query, the sink — neither panics nor fails to return.  What is proved here is the part of it that
 lies in the batch pipeline AROUND the single-query function; the single-query function and the opaque plugins
 enter the model as total functions (`respond : Json → Json`, `Plugin.table`), so a panic inside them is not even
-expressible in `runO`.  `run_returns_iff_single_query_returns` below says exactly what the pipeline adds. -/
+expressible in `runO`.  `run_returns_iff_single_query_returns` below says what the pipeline adds in the model `runRO` (sink `None`, parsed configuration, total table plugins). -/
 
 /-- **The batch pipeline around the single-query function never panics** (`_partial`: for every TOTAL
 single-query function `respond` and every plugin list of the model, whose table plugins are total by
@@ -158,32 +167,48 @@ theorem never_panics_partial {α : Type} (W : WOps α) (cfg : Config) (respond :
   rw [h]
   cases r <;> exact ⟨_, rfl⟩
 
-/-- **What the pipeline adds to the single-query function, exactly**: over a single-query function WITH
-outcomes (`respondO : Json → Outcome Json` — it may panic, it may not return), for parallelism `≥ 1` the call
-returns if and only if the single-query function returns on every query that reaches the search.  So "no batch
-makes the application panic or run without bound" is equivalent to "`run_single_query` returns on every
-expanded query of every batch" — which is NOT proved here: it is evidenced by the forked differential run
-(every case in a child process with an alarm and a memory limit) and by the theorems of the properties that own
-the pieces of the single-query function (table in the header). -/
+/-- **What the pipeline adds to the single-query function, in the model `runRO`**: over a single-query function
+WITH outcomes (`respondO : Json → Outcome Json` — it may panic, it may not return), with `ResponseSink::None`,
+the per-run configuration already parsed and the table plugins still total (`TableEntry` has only `ok | err`: a
+panic inside an r-tree / haversine plugin is inexpressible here as well), the call returns if and only if
+parallelism is 0 (the call is then `Ok []` or the whole-batch `Err` before any search) or the single-query
+function returns on every query that reaches the search.  So IN THIS MODEL "no batch makes `run` panic or run
+without bound" is equivalent to "`run_single_query` returns on every expanded query of every batch" — which is
+NOT proved here, and which does not cover the opaque plugins: both are evidenced by the forked differential
+run (every case in a child process with an alarm and a memory limit) and by the theorems of the properties
+that own the pieces (table in the header). -/
 theorem run_returns_iff_single_query_returns {α : Type} (W : WOps α) (cfg : Config)
-    (respondO : Json → Outcome Json) (batch : List Json) (hp : 1 ≤ cfg.parallelism) :
+    (respondO : Json → Outcome Json) (batch : List Json) :
     (∃ r, runRO W cfg respondO batch = .ok r) ↔
-      ∀ q ∈ processed cfg.plugins batch, ∃ v, respondO q = .ok v := by
-  obtain ⟨bins, hb, hperm, _, hnil⟩ := balanceO_spec W cfg.parallelism hp (processed cfg.plugins batch)
-  have hmem : ∀ q, q ∈ bins.flatten ↔ q ∈ processed cfg.plugins batch := fun q => hperm.mem_iff
-  unfold runRO
-  rw [searchedO_eq, hb]
-  simp only
-  by_cases he : bins.isEmpty = true
-  · have hb0 : bins = [] := List.isEmpty_iff.mp he
-    have : processed cfg.plugins batch = [] := by
-      have := hperm; rw [hb0] at this; simpa using this.symm
-    simp [he, this]
-  · simp only [he, Bool.false_eq_true, if_false]
-    rw [← (show (∀ q ∈ bins.flatten, ∃ v, respondO q = .ok v) ↔ _ from
-      ⟨fun h q hq => h q ((hmem q).mpr hq), fun h q hq => h q ((hmem q).mp hq)⟩)]
-    rw [← respondAllO_ok_iff]
-    cases respondAllO respondO bins.flatten <;> simp
+      (cfg.parallelism = 0 ∨ ∀ q ∈ processed cfg.plugins batch, ∃ v, respondO q = .ok v) := by
+  by_cases hp : 1 ≤ cfg.parallelism
+  · have aux : (∃ r, runRO W cfg respondO batch = .ok r) ↔
+        ∀ q ∈ processed cfg.plugins batch, ∃ v, respondO q = .ok v := by
+      obtain ⟨bins, hb, hperm, _, hnil⟩ := balanceO_spec W cfg.parallelism hp (processed cfg.plugins batch)
+      have hmem : ∀ q, q ∈ bins.flatten ↔ q ∈ processed cfg.plugins batch := fun q => hperm.mem_iff
+      unfold runRO
+      rw [searchedO_eq, hb]
+      simp only
+      by_cases he : bins.isEmpty = true
+      · have hb0 : bins = [] := List.isEmpty_iff.mp he
+        have : processed cfg.plugins batch = [] := by
+          have := hperm; rw [hb0] at this; simpa using this.symm
+        simp [he, this]
+      · simp only [he, Bool.false_eq_true, if_false]
+        rw [← (show (∀ q ∈ bins.flatten, ∃ v, respondO q = .ok v) ↔ _ from
+          ⟨fun h q hq => h q ((hmem q).mpr hq), fun h q hq => h q ((hmem q).mp hq)⟩)]
+        rw [← respondAllO_ok_iff]
+        cases respondAllO respondO bins.flatten <;> simp
+    constructor
+    · intro h; exact Or.inr (aux.mp h)
+    · rintro (h0 | h)
+      · omega
+      · exact aux.mpr h
+  · have h0 : cfg.parallelism = 0 := by omega
+    refine ⟨fun _ => Or.inl h0, fun _ => ?_⟩
+    unfold runRO
+    rw [searchedO_eq, h0, balanceO_zero]
+    by_cases he : (processed cfg.plugins batch).isEmpty = true <;> simp [he]
 
 /-- with a total single-query function the model with outcomes is the model the other theorems are about -/
 theorem run_with_total_single_query {α : Type} (W : WOps α) (cfg : Config) (respond : Json → Json)
@@ -429,7 +454,7 @@ theorem own_plugins_fail_clean (p : Plugin) (q : Json) (e : PErr) (h : processT 
 
 /-- a plugin that breaks the invariant does not break the pipeline: it never panics; a scalar left behind is
 answered with an invariant error that names the query (fix 755333a: it named the placeholder, key
-`pipeline/invariant-error-loses-request`).  `every_query_answered` still needs its hypothesis: a plugin that
+`pipeline/invariant-error-loses-request`).  `every_query_answered_partial` still needs its hypothesis: a plugin that
 answers with the empty array erases the query (no expanded query, no response). -/
 theorem invariant_breaker_is_answered_with_the_query (respond : Json → Json) :
     answer [.userBreaker "break"] respond (.obj [("break", .str "scalar")])
@@ -457,14 +482,22 @@ example : ∃ out, runO C06.natOps
 
 /-! ## the entry points and the builders never panic either -/
 
-/-- **Whatever JSON value is offered as a batch, through whatever entry, with whatever per-run configuration
-and sink, the call returns**: `Ok(responses)` or an `Err` for the call — never a panic, never a divergence -/
-theorem call_never_panics {α : Type} (W : WOps α) (env : String → Bool × Bool) (app : App)
+/-- **Whatever JSON value is offered as a batch, through each of the three entries (`run` on a value, `run` on a
+vector, `run_queries` on texts), with whatever per-run configuration and sink of the model, the call returns**:
+`Ok(responses)` or an `Err` for the call — never a panic, never a divergence.  `_partial` exactly as
+`never_panics_partial`: for every TOTAL single-query function `respond` and every plugin list of the model,
+whose table plugins are total by construction — it says nothing about a panic inside `run_single_query` or
+inside an r-tree / haversine plugin; the panics it excludes are the modelled sites of the pipeline.  A
+`Combined` policy or a CSV file policy is answered `runConfig` by the model and is accepted by the code: for
+such a per-run value this is a statement about the model only (the harness offers neither). -/
+theorem call_never_panics_partial {α : Type} (W : WOps α) (env : String → Bool × Bool) (app : App)
     (runCfg : Option Json) (respond : Json → Json) (v : Json) :
     (∃ r, callValueO W env app runCfg respond v = .ok r) ∧
-    (∀ batch, ∃ r, callO W env app runCfg respond batch = .ok r) := by
-  have hcall : ∀ batch, ∃ r, callO W env app runCfg respond batch = .ok r := by
-    intro batch
+    (∀ batch, ∃ r, callO W env app runCfg respond batch = .ok r) ∧
+    (∀ (textCfg : Option (Option Json)) (texts : List (Option Json)),
+      ∃ r, runQueriesO W env app textCfg respond texts = .ok r) := by
+  have hcallAny : ∀ (runCfg : Option Json) batch, ∃ r, callO W env app runCfg respond batch = .ok r := by
+    intro runCfg batch
     unfold callO
     cases parseRunConfig env runCfg with
     | none => exact ⟨_, rfl⟩
@@ -487,24 +520,39 @@ theorem call_never_panics {α : Type} (W : WOps α) (env : String → Bool × Bo
           · split
             · exact ⟨_, rfl⟩
             · split <;> exact ⟨_, rfl⟩
-  refine ⟨?_, hcall⟩
-  rw [C06.call_value_spec]
-  cases getQueries v with
-  | none => exact ⟨_, rfl⟩
-  | some batch => exact hcall batch
+  have hcall := hcallAny runCfg
+  refine ⟨?_, hcall, ?_⟩
+  · rw [C06.call_value_spec]
+    cases getQueries v with
+    | none => exact ⟨_, rfl⟩
+    | some batch => exact hcall batch
+  · intro textCfg texts
+    unfold runQueriesO
+    split
+    · exact ⟨_, rfl⟩
+    · split
+      · exact ⟨_, rfl⟩
+      · exact hcallAny _ _
 
-/-- **Every whole-call `Err` of the modelled call, and when**: a per-run value that does not deserialize; a sink
-whose file cannot be opened or whose flush rate is `≤ 0`; parallelism 0 with a query to run; a failed write with
-something to write.  (Not modelled: the two "could not build progress bar" exits — no bar format is ever set —
-and a poisoned sink mutex.) -/
+/-- **Every whole-call `Err` of the modelled call: NECESSARY conditions** (the statement is one-directional —
+from the `Err` to its cause): a per-run value that does not deserialize (in the model: a `Combined` or CSV
+policy is answered `runConfig` too, which is not the code's answer — not modelled); a sink whose file cannot be
+opened or whose flush rate is `≤ 0`; parallelism 0 with a query to run; a failed write with something to write
+— an input-stage error response or a query to run (a failing sink on a batch with nothing to write returns
+`Ok []`: `failing_sink_with_nothing_to_write`).  The converses are `C06.invalid_run_config_fails_call`,
+`C06.sink_build_errors` (with `callO`'s definition), `C06.failing_sink_fails_call` (parallelism ≥ 1) and
+`whole_batch_error_iff`.  (Not modelled: the two "could not build progress bar" exits — no bar format is ever
+set — and a poisoned sink mutex.) -/
 theorem call_error_cases {α : Type} (W : WOps α) (env : String → Bool × Bool) (app : App)
     (runCfg : Option Json) (respond : Json → Json) (batch : List Json) (e : CallErr)
     (h : callO W env app runCfg respond batch = .ok (.error e)) :
     (parseRunConfig env runCfg = none ∧ e = .runConfig) ∨
     (∃ o, parseRunConfig env runCfg = some o ∧
       (buildSink (o.policy.getD app.policy) = .error e ∨
-       (e = .app .minBinEmpty ∧ (app.config o).parallelism = 0) ∨
-       (e = .sinkWrite ∧ sinkFails (o.policy.getD app.policy) = true))) := by
+       (e = .app .minBinEmpty ∧ (app.config o).parallelism = 0 ∧
+         processed (app.config o).plugins batch ≠ []) ∨
+       (e = .sinkWrite ∧ sinkFails (o.policy.getD app.policy) = true ∧
+         (errs (app.config o).plugins batch ≠ [] ∨ processed (app.config o).plugins batch ≠ [])))) := by
   unfold callO at h
   cases hp : parseRunConfig env runCfg with
   | none => left; simp [hp] at h; exact ⟨rfl, h.symm⟩
@@ -518,19 +566,22 @@ theorem call_error_cases {α : Type} (W : WOps α) (env : String → Bool × Boo
       right
       simp only [hb] at h
       rw [callCoreO_eq] at h
+      have hne : ∀ l : List Json, ¬ l.isEmpty = true → l ≠ [] := by
+        intro l hl hq; exact hl (by simp [hq])
       by_cases hpar : 1 ≤ (app.config o).parallelism
-      · obtain ⟨bins, hbal, _⟩ := balanceO_spec W (app.config o).parallelism hpar
+      · obtain ⟨bins, hbal, hbe⟩ := bins_isEmpty_iff W (app.config o).parallelism hpar
           (processed (app.config o).plugins batch)
         rw [hbal] at h
         simp only at h
         right
         by_cases hs : sinkFails (o.policy.getD app.policy) = true
-        · refine ⟨?_, hs⟩
-          split at h
-          · simpa using h.symm
-          · split at h
-            · simp at h
-            · simp [hs] at h; exact h.symm
+        · by_cases he : (errs (app.config o).plugins batch).isEmpty = true
+          · by_cases hbb : bins.isEmpty = true
+            · simp [hs, he, hbb] at h
+            · simp [hs, he, hbb] at h
+              exact ⟨h.symm, hs, Or.inr (fun hq => hbb (hbe.mpr hq))⟩
+          · simp [hs, he] at h
+            exact ⟨h.symm, hs, Or.inl (hne _ he)⟩
         · simp [hs] at h
           split at h <;> simp at h
       · have h0 : (app.config o).parallelism = 0 := by omega
@@ -539,14 +590,26 @@ theorem call_error_cases {α : Type} (W : WOps α) (env : String → Bool × Boo
         · simp only [hq, if_true] at h
           right
           by_cases hs : sinkFails (o.policy.getD app.policy) = true
-          · refine ⟨?_, hs⟩
-            split at h
-            · simpa using h.symm
-            · simp at h
+          · by_cases he : (errs (app.config o).plugins batch).isEmpty = true
+            · simp [hs, he] at h
+            · simp [hs, he] at h
+              exact ⟨h.symm, hs, Or.inl (hne _ he)⟩
           · simp [hs] at h
         · simp only [hq, Bool.false_eq_true, if_false, Outcome.ok.injEq, Except.error.injEq] at h
           left
-          exact ⟨h.symm, h0⟩
+          exact ⟨h.symm, h0, hne _ hq⟩
+
+/-- a failing sink on a batch with nothing to write — no input-stage error, no query to run; the empty batch
+in particular — does not fail the call: nothing is written, `Ok []` (any parallelism, 0 included) -/
+theorem failing_sink_with_nothing_to_write {α : Type} (W : WOps α) (cfg : Config) (s : SinkSpec)
+    (respond : Json → Json) (batch : List Json) (he : errs cfg.plugins batch = [])
+    (hq : processed cfg.plugins batch = []) :
+    callCoreO W cfg (.file s) respond batch = .ok (.ok []) := by
+  rw [callCoreO_eq, hq, he]
+  have hb : balanceO W cfg.parallelism [] = .ok (.ok []) := by
+    unfold balanceO; rfl
+  rw [hb]
+  simp
 
 /-- a value that is not a batch — a number, a string, `null`, an object whose `queries` is not an array — is
 refused with an error for the call; every array and every other object is run -/
@@ -569,7 +632,10 @@ theorem batch_of_wrong_json_type (v : Json) :
     · exact C06.get_queries_spec.2.2.2.1 kvs w hl hw
 
 /-- **`InjectPluginBuilder::build` never panics** (fix bdada7d: `format = "toml"` was `todo!()`, a panic while
-the application is built), on any parameters and whatever `serde_json` makes of the value text -/
+the application is built), on any parameters and whatever `serde_json` makes of the value text.  (True BY
+CONSTRUCTION of the model: its only panic arm was the `toml` format, removed with the fix — what ties the
+statement to the code is the forked builder stream of the harness.  The load-balancer builder's model,
+`buildLoadBalancer`, has no panic outcome in its type at all.) -/
 theorem inject_builder_never_panics (params : Json) (ps pj : Option Json) :
     ∃ r, buildInject params ps pj = .ok r := by
   unfold buildInject
